@@ -183,3 +183,14 @@ def b128_val(d, i, end, acc) -> Int:
 
 def b128_val__facts(d, i, end, acc, r):
     return implies(acc >= 0 and typed_bytes(d), r >= 0)
+
+
+@lemma
+def fact_tag_cont_end(d: Bytes, o: Int):
+    nofacts("tag_cont_end")
+    requires(o >= 0)
+    ensures(implies(o <= len(d), o <= tag_cont_end(d, o) and tag_cont_end(d, o) <= len(d))
+            and implies(o >= len(d), tag_cont_end(d, o) == len(d)))
+    decreases(len(d) - o)
+    if o < len(d):
+        fact_tag_cont_end(d, o + 1)
